@@ -80,6 +80,9 @@ func HandleInsertStmt(p *InsertPlan, stmt *ast.InsertStmt) error {
 
 	// 全局表直接生成 SQL 返回
 	if isGlobalTable {
+		// only one table is involved: drop db and table qualifiers of the column names, as for
+		// sharded tables, so that no logical database name is sent to a physical copy
+		removeInsertColumnQualifiers(p.stmt)
 		if err := generateGlobalShardingSQLs(p); err != nil {
 			return fmt.Errorf("generate global table sharding sqls error: %v", err)
 		}
@@ -227,6 +230,18 @@ func removeSchemaAndTableInfoInColumnName(column *ast.ColumnName) {
 	column.Schema.L = ""
 	column.Table.O = ""
 	column.Table.L = ""
+}
+
+func removeInsertColumnQualifiers(stmt *ast.InsertStmt) {
+	for _, col := range stmt.Columns {
+		removeSchemaAndTableInfoInColumnName(col)
+	}
+	for _, assignment := range stmt.Setlist {
+		removeSchemaAndTableInfoInColumnName(assignment.Column)
+	}
+	for _, assignment := range stmt.OnDuplicate {
+		removeSchemaAndTableInfoInColumnName(assignment.Column)
+	}
 }
 
 // TODO: refactor
